@@ -12,6 +12,7 @@ import (
 	"crypto/sha256"
 	"fmt"
 	"os"
+	"strings"
 	"sync"
 	"sync/atomic"
 	"testing"
@@ -25,12 +26,18 @@ import (
 	"github.com/lightningnetwork/lnd/lntypes"
 	"github.com/lightningnetwork/lnd/lnwallet"
 	"github.com/lightningnetwork/lnd/lnwire"
+	"github.com/lightningnetwork/lnd/ticker"
 )
 
 type verifC08Pay struct {
 	Idx      int
 	Dir      string // "AC", "CA", "AB", "CB"
-	Kind     string // valid, unknown, underpaid, lowfee, lowcltv
+	Kind     string // valid, hold, unknown, underpaid, lowfee, lowcltv
+	// hold invoices: the receiver accepts the HTLC and the harness settles
+	// or cancels the invoice later (possibly across a flap or restart)
+	HoldSettle bool
+	HoldDelay  time.Duration
+	reg        *mockInvoiceRegistry
 	Amt      lnwire.MilliSatoshi
 	HtlcAmt  lnwire.MilliSatoshi
 	Fee      lnwire.MilliSatoshi
@@ -251,6 +258,9 @@ type verifC08Net struct {
 	// it until the link is active (msgStream).
 	gateMu sync.Mutex
 	gate   map[lnwire.ChannelID]chan struct{}
+
+	// down[0]/down[1]: the links of channel A-B / B-C are currently removed
+	down [2]bool
 }
 
 func (v *verifC08Net) holdReestablish(m lnwire.Message) {
@@ -401,6 +411,7 @@ func (v *verifC08Net) restart(t *testing.T) error {
 		l.cfg.FwrdingPolicy.FeeRate = 1000
 	}
 	v.n = n
+	v.down = [2]bool{}
 	v.install(t)
 	return v.startNet()
 }
@@ -411,6 +422,24 @@ func (v *verifC08Net) restart(t *testing.T) error {
 // reloaded from disk on both sides and fresh links are added (which run
 // channel_reestablish for real).
 func (v *verifC08Net) flap(t *testing.T, ab bool) error {
+	v.linkDown(ab)
+	return v.linkUp(t, ab)
+}
+
+func verifC08DownIdx(ab bool) int {
+	if ab {
+		return 0
+	}
+	return 1
+}
+
+// linkDown removes both links of one channel from their switches (a
+// disconnect); the channel stays down until linkUp or a cluster restart.
+func (v *verifC08Net) linkDown(ab bool) {
+	if v.down[verifC08DownIdx(ab)] {
+		return
+	}
+	v.down[verifC08DownIdx(ab)] = true
 	n := v.n
 	chanID := v.mon.chanBC
 	if ab {
@@ -439,8 +468,21 @@ func (v *verifC08Net) flap(t *testing.T, ab bool) error {
 	time.Sleep(30 * time.Millisecond)
 	v.mon.mu.Lock()
 	v.mon.epoch++
-	v.mon.logf("=== link flap ab=%v -> epoch %d", ab, v.mon.epoch)
+	v.mon.logf("=== link down ab=%v -> epoch %d", ab, v.mon.epoch)
 	v.mon.mu.Unlock()
+}
+
+// linkUp reloads the channel from disk on both sides and adds fresh links
+// (which run channel_reestablish for real).
+func (v *verifC08Net) linkUp(t *testing.T, ab bool) error {
+	if !v.down[verifC08DownIdx(ab)] {
+		return nil
+	}
+	n := v.n
+	chanID := v.mon.chanBC
+	if ab {
+		chanID = v.mon.chanAB
+	}
 	gate := make(chan struct{})
 	v.gateMu.Lock()
 	if v.gate == nil {
@@ -519,6 +561,7 @@ func (v *verifC08Net) flap(t *testing.T, ab bool) error {
 		links["bob second"], links["carol"] = b, c
 	}
 	openGate()
+	v.down[verifC08DownIdx(ab)] = false
 	return verifC08WaitEligible(links)
 }
 
@@ -545,6 +588,13 @@ func verifC08WaitEligible(links map[string]*channelLink) error {
 
 func (v *verifC08Net) startNet() error {
 	n := v.n
+	// The fixture gives the switches force-tickers that never tick, which
+	// leaves the switch's batched settle/fail acknowledgement (and the
+	// forwarding-event flush) dead; production uses real tickers (15 s).
+	for _, srv := range []*mockServer{n.aliceServer, n.bobServer, n.carolServer} {
+		srv.htlcSwitch.cfg.AckEventTicker = ticker.New(15 * time.Millisecond)
+		srv.htlcSwitch.cfg.FwdEventTicker = ticker.New(40 * time.Millisecond)
+	}
 	for _, srv := range []*mockServer{n.aliceServer, n.bobServer, n.carolServer} {
 		if err := srv.Start(); err != nil {
 			return err
@@ -570,7 +620,15 @@ func (v *verifC08Net) genPayment(r *verifRng, idx int) (*verifC08Pay, error) {
 	n := v.n
 	p := &verifC08Pay{Idx: idx}
 	p.Dir = []string{"AC", "AC", "CA", "CA", "AB", "CB"}[r.Intn(6)]
-	p.Kind = []string{"valid", "valid", "valid", "valid", "unknown", "underpaid", "lowfee", "lowcltv"}[r.Intn(8)]
+	p.Kind = []string{"valid", "valid", "valid", "valid", "unknown", "underpaid", "lowfee", "lowcltv", "hold", "hold"}[r.Intn(10)]
+	if ov := os.Getenv("VERIF_C08_FORCE"); ov != "" { // debugging aid: "hold-AC"
+		f := strings.Split(ov, "-")
+		p.Kind, p.Dir = f[0], f[1]
+	}
+	if p.Kind == "hold" {
+		p.HoldSettle = r.Bool()
+		p.HoldDelay = time.Duration(r.Intn(400)) * time.Millisecond
+	}
 	if !p.forwarded() && (p.Kind == "lowfee" || p.Kind == "lowcltv") {
 		p.Kind = "valid"
 	}
@@ -614,9 +672,15 @@ func (v *verifC08Net) genPayment(r *verifRng, idx int) (*verifC08Pay, error) {
 	}
 	var payAddr [32]byte
 	copy(payAddr[:], r.Bytes(32))
-	pre := p.Preimage
+	pre := &p.Preimage
+	if p.Kind == "hold" {
+		pre = nil // hold invoice: the registry does not know the preimage
+	} else {
+		cp := p.Preimage
+		pre = &cp
+	}
 	invoice, htlc, _, err := generatePaymentWithPreimage(invoiceAmt, htlcAmt, totalTimelock, blob,
-		&pre, p.Hash, payAddr)
+		pre, p.Hash, payAddr)
 	if err != nil {
 		return nil, err
 	}
@@ -624,6 +688,7 @@ func (v *verifC08Net) genPayment(r *verifRng, idx int) (*verifC08Pay, error) {
 	p.htlc = htlc
 	if p.Kind != "unknown" {
 		recv := v.server(p.Dir[1])
+		p.reg = recv.registry
 		if err := recv.registry.AddInvoice(context.Background(), *invoice, p.Hash); err != nil {
 			return nil, err
 		}
@@ -676,6 +741,54 @@ func (v *verifC08Net) await(p *verifC08Pay, sender *mockServer) {
 			p.outcome, p.errStr = "badpreimage", fmt.Sprintf("%x", res.Preimage[:4])
 		} else {
 			p.outcome = "success"
+		}
+	}
+}
+
+// holder resolves a hold invoice: once the receiver has accepted the HTLC it
+// waits the payment's delay and settles or cancels; when stop closes first
+// (all faults injected, network stable) it resolves an accepted invoice the
+// same way and cancels one that never saw its HTLC.
+func (v *verifC08Net) holder(p *verifC08Pay, stop <-chan struct{}, wg *sync.WaitGroup, vc *verifCtx) {
+	defer wg.Done()
+	ctx := context.Background()
+	act := func() {
+		var err error
+		if p.HoldSettle {
+			err = p.reg.SettleHodlInvoice(ctx, p.Preimage)
+			vc.Count("hold_settled", 1)
+		} else {
+			err = p.reg.CancelInvoice(ctx, p.Hash)
+			vc.Count("hold_cancelled", 1)
+		}
+		if err != nil {
+			vc.Count("hold_resolve_error", 1)
+		}
+	}
+	for {
+		inv, err := p.reg.LookupInvoice(ctx, p.Hash)
+		if err == nil && inv.State == invoices.ContractAccepted {
+			select {
+			case <-stop:
+			case <-time.After(p.HoldDelay):
+			}
+			act()
+			return
+		}
+		if err == nil && (inv.State == invoices.ContractCanceled || inv.State == invoices.ContractSettled) {
+			return
+		}
+		select {
+		case <-stop:
+			inv, err := p.reg.LookupInvoice(ctx, p.Hash)
+			if err == nil && inv.State == invoices.ContractAccepted {
+				act()
+			} else {
+				_ = p.reg.CancelInvoice(ctx, p.Hash)
+				vc.Count("hold_never_accepted", 1)
+			}
+			return
+		case <-time.After(10 * time.Millisecond):
 		}
 	}
 }
@@ -758,12 +871,28 @@ func (v *verifC08Net) waitIdle(stablePolls int, watchdog time.Duration) (verifC0
 func verifC08Case(t *testing.T, vc *verifCtx, i int) {
 	r := vc.Rng(i)
 	nPay := 5 + r.Intn(16)
-	nRestarts := []int{0, 0, 1, 1, 2}[r.Intn(5)]
-	if os.Getenv("VERIF_C08_NORESTART") != "" {
-		nRestarts = 0
+	// fault plan: a PRNG sequence of link flaps (down+up), link downs that
+	// stay down across the following faults, link ups and whole-cluster
+	// restarts (which also bring every link back).
+	nFaults := []int{0, 1, 2, 2, 3, 3, 4, 5}[r.Intn(8)]
+	var plan []string
+	nRestarts, nFlaps := 0, 0
+	for k := 0; k < nFaults; k++ {
+		op := []string{"fAB", "fBC", "dAB", "dBC", "dAB", "dBC", "u", "R", "R"}[r.Intn(9)]
+		if op == "R" && (nRestarts >= 2 || os.Getenv("VERIF_C08_NORESTART") != "") {
+			op = "fBC"
+		}
+		if op == "R" {
+			nRestarts++
+		} else {
+			nFlaps++
+		}
+		plan = append(plan, op)
 	}
-	nFlaps := []int{0, 0, 1, 2, 3}[r.Intn(5)]
-	vc.Case(i, map[string]any{"payments": nPay, "restarts": nRestarts, "flaps": nFlaps})
+	if ov := os.Getenv("VERIF_C08_PLAN"); ov != "" { // debugging aid
+		plan = strings.Split(ov, ",")
+	}
+	vc.Case(i, map[string]any{"payments": nPay, "faults": strings.Join(plan, ",")})
 	capSat := btcutil.Amount(btcutil.SatoshiPerBitcoin * 5)
 	v, err := verifC08Start(t, vc, r, capSat)
 	if err != nil {
@@ -797,31 +926,26 @@ func verifC08Case(t *testing.T, vc *verifCtx, i int) {
 			time.Sleep(time.Duration(r.Intn(40)) * time.Millisecond)
 		}
 	}
-	for fl := 0; fl < nFlaps; fl++ {
-		time.Sleep(time.Duration(r.Intn(120)) * time.Millisecond)
-		if err := v.flap(t, r.Bool()); err != nil {
-			verifC08Fatalf(t, "flap: %v", err)
+	holdStop := make(chan struct{})
+	var holdWg sync.WaitGroup
+	for _, p := range pays {
+		if p.Kind == "hold" {
+			holdWg.Add(1)
+			go v.holder(p, holdStop, &holdWg, vc)
+			vc.Count("hold_payments", 1)
 		}
-		vc.Count("link_flaps", 1)
 	}
-	for rs := 0; rs < nRestarts; rs++ {
-		time.Sleep(time.Duration(r.Intn(250)) * time.Millisecond)
-		if err := v.restart(t); err != nil {
-			verifC08Fatalf(t, "restart: %v", err)
-		}
-		vc.Count("cluster_restarts", 1)
+	requery := func() {
 		// old result waiters return when the old switch stops; re-query
 		// every payment without a terminal result on the new switch.
 		wg.Wait()
 		for _, p := range pays {
 			p.mu.Lock()
 			need := p.outcome == ""
-			sent := p.sent
 			p.mu.Unlock()
 			if !need {
 				continue
 			}
-			_ = sent
 			p := p
 			wg.Add(1)
 			go func() {
@@ -830,6 +954,55 @@ func verifC08Case(t *testing.T, vc *verifCtx, i int) {
 			}()
 		}
 	}
+	for _, op := range plan {
+		time.Sleep(time.Duration(r.Intn(150)) * time.Millisecond)
+		var err error
+		switch op {
+		case "fAB", "fBC":
+			err = v.flap(t, op == "fAB")
+			vc.Count("link_flaps", 1)
+		case "dAB", "dBC":
+			v.linkDown(op == "dAB")
+			vc.Count("link_downs_held", 1)
+		case "u":
+			for _, ab := range []bool{true, false} {
+				if v.down[verifC08DownIdx(ab)] && err == nil {
+					err = v.linkUp(t, ab)
+					vc.Count("link_flaps", 1)
+				}
+			}
+		case "w": // debugging aid (VERIF_C08_PLAN only)
+			time.Sleep(700 * time.Millisecond)
+		case "R":
+			if v.down[0] || v.down[1] {
+				vc.Count("restart_with_link_down", 1)
+			}
+			err = v.restart(t)
+			vc.Count("cluster_restarts", 1)
+			if err == nil {
+				requery()
+			}
+		}
+		if err != nil {
+			verifC08Fatalf(t, "fault %s: %v", op, err)
+		}
+	}
+	for _, ab := range []bool{true, false} {
+		if v.down[verifC08DownIdx(ab)] {
+			if err := v.linkUp(t, ab); err != nil {
+				verifC08Fatalf(t, "final link up: %v", err)
+			}
+			vc.Count("link_flaps", 1)
+		}
+	}
+	// every fault is injected: let the network become stable with the
+	// remaining hold invoices still held, then resolve those as well.
+	if st0, idle := v.waitIdle(20, 120*time.Second); !idle {
+		close(holdStop)
+		verifC08Fatalf(t, "case %d: network never became stable before the holds were released (inconclusive): %+v", i, st0)
+	}
+	close(holdStop)
+	holdWg.Wait()
 	done := make(chan struct{})
 	go func() { wg.Wait(); close(done) }()
 	// first let the network settle (observable state stable), then give
@@ -883,6 +1056,14 @@ func verifC08Case(t *testing.T, vc *verifCtx, i int) {
 			if err == nil && inv.State == invoices.ContractSettled {
 				settled = true
 			}
+			if err == nil && inv.State == invoices.ContractAccepted {
+				vc.Violation("nothing_dangling", "invoice-still-accepted",
+					fmt.Sprintf("payment %d (%s %s): network quiescent and clean but the receiver's invoice is still in the accepted state", p.Idx, p.Dir, p.Kind), wit())
+			}
+			if p.Kind == "hold" && !p.HoldSettle && settled {
+				vc.Violation("invalid_payment_settled", "hold-cancelled-but-settled",
+					fmt.Sprintf("payment %d: hold invoice was cancelled, never settled by the receiver, yet it is settled", p.Idx), wit())
+			}
 		}
 		vc.Count("oracle_result_consistent", 1)
 		switch outcome {
@@ -925,7 +1106,7 @@ func verifC08Case(t *testing.T, vc *verifCtx, i int) {
 				}
 			}
 		}
-		if p.Kind != "valid" && settled {
+		if p.Kind != "valid" && p.Kind != "hold" && settled {
 			vc.Violation("invalid_payment_settled", p.Kind,
 				fmt.Sprintf("payment %d of kind %s must not be settled", p.Idx, p.Kind), wit())
 		}
@@ -998,7 +1179,7 @@ func TestVerifC08(t *testing.T) {
 		lg.SetLevel(btclog.LevelDebug)
 		UseLogger(lg)
 	}
-	total := vc.N(40, 700)
+	total := vc.N(64, 800)
 	for i := 0; i < total; i++ {
 		if !vc.Mine(i) {
 			continue
